@@ -12,7 +12,7 @@ open MiniMcmcVerif MiniMcmcVerif.NUTS MiniMcmcVerif.DualAvg
 instance : Sub (List Float) := ⟨List.zipWith (· - ·)⟩
 instance : HasExp Float := ⟨Float.exp⟩
 instance : HasLnFin Float := ⟨Float.log, fun x => !(x.isNaN || x.isInf)⟩
-instance : TrOps Float := ⟨Float.exp, Float.log, Float.sqrt, fun x k => Float.pow x (-k)⟩
+instance : TrOps Float := ⟨Float.exp, Float.log, Float.sqrt, fun x k => Float.pow x (-k), clampOrd⟩
 
 def targetFn (t : TargetF) : List Float → Float × List Float := fun x => (t.logp x, t.grad x)
 
@@ -105,11 +105,14 @@ def c04 (args : List String) : String :=
       match parseNats ints, numsOf ty st, numsOf ty as with
       | some [m, nDiscard, firstUse], some [eps, epsBar, hBar, mu, eps0], some as =>
         let gamma : Float := if ty = "f32" then (Float.toFloat32 0.05).toFloat else 0.05
+        -- `T::min_positive_value()` / `T::max_value()` of the scalar type the case ran at
+        let lo : Float := if ty = "f32" then Float.ofScientific 11754943508222875 true 54 else Float.ofScientific 22250738585072014 true 324
+        let hi : Float := if ty = "f32" then Float.ofScientific 34028234663852886 false 22 else Float.ofScientific 17976931348623157 false 292
         let s0 : Adapt Float := ⟨m, 0, eps, epsBar, hBar, mu⟩
         let s1 := initChain s0 nDiscard (firstUse == 1) eps0
         let fmt (s : Adapt Float) := join [toString s.m, tokD s.eps, tokD s.epsBar, tokD s.hBar, tokD s.mu]
         let (_, outs) := as.foldl (fun (acc : Adapt Float × List String) a =>
-          let s := adaptStep delta gamma 0.75 10 acc.1 a
+          let s := adaptStep lo hi delta gamma 0.75 10 acc.1 a
           (s, acc.2 ++ [fmt s])) (s1, [fmt s1])
         id ++ " " ++ " | ".intercalate outs
       | _, _, _ => id ++ " bad-op"
